@@ -1,5 +1,6 @@
 import ZChain.Model.Provider
 import ZChain.Proofs.Ledger
+import ZChain.Proofs.F64
 /-!
 # Lemmas about `Model/Provider` (association lists, the frame relation of the kill / shut-down wrappers)
 -/
@@ -709,5 +710,41 @@ theorem provShutDown_unauth {load : State → Req → Except Err Loaded} {refres
       have hw' : sp'.wallet = L.sp.wallet := (spKill_spec hk).2.2.1
       refine ⟨.unauthorized, ?_⟩
       simp only [hw', h, h1, or_self, ↓reduceIte]
+
+/-! ## slashing never adds stake -/
+
+theorem lt_fin_false_zero (m E : Nat) : F64.lt (.fin false m E) F64.zero = false := by
+  simp [F64.lt, F64.zero, F64.sval]
+
+theorem roundDiv_false_lt_zero (N D : Nat) : F64.lt (F64.roundDiv false N D) F64.zero = false := by
+  unfold F64.roundDiv
+  simp only
+  split <;> split <;> first | rfl | exact lt_fin_false_zero _ _
+
+/-- `MultFloat64(c, r)` for a finite factor `0 ≤ r ≤ 1` and `c < 2^53` is defined and does not exceed `c`. -/
+theorem multFloat64_le (c : Nat) (hc : c < 2 ^ 53) (m E : Nat) (hr : m * 2 ^ E ≤ 2 ^ 1074) :
+    ∃ n, multFloat64 c (.fin false m E) = .ok n ∧ n ≤ c := by
+  obtain ⟨n, hn, hle⟩ := F64.toNatTrunc_mul_le c hc m E hr
+  refine ⟨n, ?_, hle⟩
+  have hb : F64.lt (F64.mul (F64.ofNat c) (.fin false m E)) F64.zero = false := by
+    unfold F64.ofNat
+    generalize hx : F64.roundDiv false (c * 2 ^ 1074) 1 = x
+    have hxs : F64.lt x F64.zero = false := by rw [← hx]; exact roundDiv_false_lt_zero _ _
+    cases x with
+    | nan => rfl
+    | inf s =>
+      cases s
+      · simp only [F64.mul]; split <;> rfl
+      · simp [F64.lt, F64.zero] at hxs
+    | fin s mx Ex =>
+      cases s
+      · simp only [F64.mul, bne_self_eq_false]; exact roundDiv_false_lt_zero _ _
+      · exfalso
+        unfold F64.roundDiv at hx
+        simp only at hx
+        split at hx <;> split at hx <;> cases hx
+  unfold multFloat64 float64ToCoin
+  rw [lt_fin_false_zero]
+  simp only [Bool.false_eq_true, ↓reduceIte, hb, hn]
 
 end ZChain.Provider
